@@ -320,6 +320,11 @@ class Schema(dict, metaclass=LogicalMeta):
         context = self.__parser__.make_context(force_error=True)
         value = field.parse_value(value, context=context)
 
+        if unprovided(value):
+            # rejected under an 'exclude' policy (a warning was given): the assignment is dropped,
+            # the sentinel must never be stored
+            return
+
         if field.property:
             if callable(setter):
                 # @property.fset
